@@ -106,6 +106,11 @@ def run_case(tape, tier):
                                 "(txbs left %s)" % (i, len(got), len(exp), len(lab.remoter_for(i).txbs) if lab.remoter_for(i) else None))
                     return False
                 rm = lab.remoter_for(i)
+                if final and rm is None:
+                    res.violate("healthy-connection-dropped", "conn %d: after the drain the server holds no connection for this client "
+                                "although no connection-level fault was injected (client connected %s cutoff %s; %d planned server->client "
+                                "payloads never handed over)" % (i, c.connected, c.cutoff, len(plans[i]["s2c"]) - nxt[i]["s2c"]))
+                    return False
                 got = bytes(rm.rxbs) if rm is not None else b""
                 exp = bytes(sent[i]["c2s"])
                 if exp[:len(got)] != got:
